@@ -137,6 +137,106 @@ impl<'a> Tr<'a> {
         Ok(out)
     }
 
+    /// an argument where a value of type `want` is expected: a closure literal `|x| e` is a `fun`
+    fn arg_expected(&mut self, a: &Expr, want: &Ty, env: &Env) -> Res<(L, Ty)> {
+        if let (Expr::Closure(c), Ty::Fn(params, ret)) = (a, want) {
+            let sp = a.span();
+            if c.inputs.len() != params.len() || c.capture.is_some() || c.asyncness.is_some() || !matches!(c.output, ReturnType::Default) {
+                return self.unsupported(sp, "closure (only `|x, …| e` where a closure type is expected)");
+            }
+            let mut env2 = env.clone();
+            let mut names = vec![];
+            for (p, t) in c.inputs.iter().zip(params) {
+                match p {
+                    Pat::Ident(i) if i.by_ref.is_none() && i.mutability.is_none() && i.subpat.is_none() => {
+                        names.push(lean_ident(&i.ident.to_string()));
+                        env2.push(var(i.ident.to_string(), t.clone()));
+                    }
+                    _ => return self.unsupported(sp, "closure parameter"),
+                }
+            }
+            self.no_hoist += 1;
+            let body = self.expr(&c.body, &env2);
+            self.no_hoist -= 1;
+            let (b, bt) = body?;
+            if !assignable(ret, &bt) {
+                return self.err(sp, "type of the closure's body");
+            }
+            return Ok((L::comp(format!("fun {} => {}", names.join(" "), b.s)), want.clone()));
+        }
+        self.expr(a, env)
+    }
+
+    fn args_expected(&mut self, args: &syn::punctuated::Punctuated<Expr, syn::token::Comma>, want: &[Ty], env: &Env, what: &str, sp: Span) -> Res<Vec<L>> {
+        if args.len() != want.len() {
+            return self.err(sp, format!("number of arguments of the call of {what}"));
+        }
+        let mut out = vec![];
+        for (a, w) in args.iter().zip(want) {
+            let (l, t) = self.arg_expected(a, w, env)?;
+            if !assignable(w, &t) {
+                return self.err(sp, format!("argument types of the call of {what}"));
+            }
+            out.push(l);
+        }
+        Ok(out)
+    }
+
+    fn prim_arg_tys(&self, p: &Prim, sp: Span) -> Res<Vec<Ty>> {
+        let mut out = vec![];
+        for a in p.args.clone().unwrap_or_default() {
+            out.push(self.prim_ty(&a, sp)?);
+        }
+        Ok(out)
+    }
+
+    /// the call of something that changes its receiver (`&mut self`): a method translated earlier or given by --prim whose
+    /// Lean function returns the new receiver (paired with the result, if any), in an `Outcome` when it can panic
+    #[allow(clippy::too_many_arguments)]
+    fn mut_call(&mut self, m: &syn::ExprMethodCall, recv: &Expr, env: &Env, lean: &str, want: &[Ty], ret: &Ty, panics: bool, what: &str) -> Res<(L, Ty)> {
+        let sp = m.span();
+        // the receiver: a state variable, or a place rooted at one
+        let (read, root, pl) = match self.as_place(recv) {
+            Some((b, segs)) if segs.is_empty() => {
+                if !self.is_state_var(&b) {
+                    return self.unsupported(sp, format!("call of {what}, which changes its receiver, on something that is not `&mut` state:"));
+                }
+                (lean_ident(&b), b, None)
+            }
+            Some(_) => {
+                let pl = self.writable(recv, env)?;
+                (pl.read(), pl.base.clone(), Some(pl))
+            }
+            None => return self.unsupported(sp, format!("receiver of the call of {what} (only a place)")),
+        };
+        let args = self.args_expected(&m.args, want, env, what, sp)?;
+        let r = self.fresh("r");
+        let (pat, value, vt) = if *ret == Ty::Unit {
+            (r.clone(), L::atom("()"), Ty::Unit)
+        } else {
+            let q = self.fresh("q");
+            (format!("({r}, {q})"), L::atom(q), ret.clone())
+        };
+        let mut call = format!("{lean} {read}");
+        for a in &args {
+            call.push(' ');
+            call.push_str(&a.arg());
+        }
+        if panics {
+            self.push_pre(Pre::OBind { pat, call: vec![call], line: line_of(sp), why: format!("`{}`", self.short_text(sp)) }, sp)?;
+        } else {
+            self.push_pre(Pre::Let { pat, rhs: call, line: line_of(sp) }, sp)?;
+        }
+        let lets = match &pl {
+            Some(pl) => self.store(pl, &r, env),
+            None => vec![(lean_ident(&root), r.clone())],
+        };
+        let mut parts: Vec<&Expr> = vec![recv];
+        parts.extend(m.args.iter());
+        self.effect_pre(lets, sp, &[&root, "self"], &parts)?;
+        Ok((value, vt))
+    }
+
     /// a bind: `match opt with | none => exit | some name => …`; the value is `name`
     fn bind(&mut self, prefix: &str, opt: String, ty: Ty, sp: Span, why: String) -> Res<(L, Ty)> {
         let name = self.fresh(prefix);
@@ -265,7 +365,15 @@ impl<'a> Tr<'a> {
             },
             Expr::Reference(r) => {
                 if r.mutability.is_some() {
-                    return self.unsupported(e.span(), "`&mut` (only as the first argument of `ManuallyDrop::take` / `mem::replace`)");
+                    // `&mut f` for a closure parameter: closures are pure functions here
+                    if let Some((b, segs)) = self.as_place(&r.expr) {
+                        if segs.is_empty() {
+                            if let Some(Var { ty: Ty::Fn(..), .. }) = self.lookup(env, &b) {
+                                return self.expr(&r.expr, env);
+                            }
+                        }
+                    }
+                    return self.unsupported(e.span(), "`&mut` (only as the first argument of `ManuallyDrop::take` / `mem::replace`, or of a closure parameter)");
                 }
                 // a shared reference is the value it points to
                 self.expr(&r.expr, env)
@@ -472,6 +580,14 @@ impl<'a> Tr<'a> {
                     return Ok((L::comp(format!("{} {}", lean_ident(&segs[0]), args.iter().map(|(l, _)| l.arg()).collect::<Vec<_>>().join(" "))), *ret));
                 }
             }
+            // a tuple-struct constructor given by --prim `::Name(T) -> R`
+            if let Some(pr) = self.find_prim("", &segs[0]) {
+                if pr.args.is_some() && !pr.method {
+                    let want = self.prim_arg_tys(&pr, sp)?;
+                    let args = self.args_expected(&c.args, &want, env, &format!("`{}`", segs[0]), sp)?;
+                    return self.apply_prim(&pr, args, sp);
+                }
+            }
             return self.unsupported(sp, "function call");
         }
         let fname = segs[segs.len() - 1].clone();
@@ -538,6 +654,7 @@ impl<'a> Tr<'a> {
             if !self.self_mut {
                 return self.unsupported(sp, "field update in a method that does not take `&mut self`");
             }
+        } else if self.is_state_var(&pl.base) {
         } else {
             match self.lookup(env, &pl.base).map(|v| v.kind.clone()) {
                 Some(Kind::MutBorrow(_)) => {}
@@ -657,7 +774,7 @@ impl<'a> Tr<'a> {
 
     /// `V.get_mut(i)` / `V.get_unchecked_mut(i)`: the index is frozen, the borrow is remembered for whoever binds the value
     fn vec_borrow(&mut self, vec: &PlaceInfo, idx: &L, sp: Span) -> Res<String> {
-        if vec.base != "self" || !self.self_mut {
+        if !self.is_state_var(&vec.base) {
             return self.unsupported(sp, "mutable borrow of an element of a Vec that is not a field of `&mut self`:");
         }
         let at = self.fresh("at");
@@ -720,7 +837,7 @@ impl<'a> Tr<'a> {
                         return Ok((v, t));
                     }
                     ("swap_remove", 1) => {
-                        if pl.base != "self" || !self.self_mut {
+                        if !self.is_state_var(&pl.base) {
                             return self.unsupported(sp, "`swap_remove` on a Vec that is not a field of `&mut self`:");
                         }
                         let (i, it) = self.expr(&m.args[0], env)?;
@@ -766,26 +883,37 @@ impl<'a> Tr<'a> {
             (Ty::Named { rust, .. }, _, _) => {
                 let rust = rust.clone();
                 if let Some(s) = self.sigs.iter().find(|s| s.ty == rust && s.name == name).cloned() {
-                    if !s.has_self || s.self_mut || s.has_panic {
-                        return self.unsupported(sp, "call of a translated method that takes `&mut self` or can panic:");
-                    }
-                    let args = self.args(&m.args, env)?;
-                    if args.len() != s.params.len() || !args.iter().zip(&s.params).all(|((_, t), p)| assignable(p, t)) {
-                        return self.err(sp, format!("argument types of the call of `{rust}::{name}`"));
+                    if !s.has_self || s.mut_params > 0 {
+                        return self.unsupported(sp, "call of a translated function without receiver or with `&mut` parameters as a method:");
                     }
                     self.use_sig(&s);
+                    let what = format!("`{rust}::{name}`");
+                    if s.self_mut {
+                        return self.mut_call(m, recv, env, &s.lean.clone(), &s.params, &s.ret, s.has_panic, &what);
+                    }
+                    if s.has_panic {
+                        return self.unsupported(sp, "call of a translated `&self` method that can panic:");
+                    }
+                    let args = self.args_expected(&m.args, &s.params, env, &what, sp)?;
                     let mut all = vec![r.arg()];
-                    all.extend(args.iter().map(|(l, _)| l.arg()));
+                    all.extend(args.iter().map(|l| l.arg()));
                     return Ok((L::comp(format!("{} {}", self.sig_lean_name(&s), all.join(" "))), s.ret.clone()));
                 }
                 if let Some(pr) = self.find_prim(&rust, &name) {
-                    if let (Some(pa), true) = (&pr.args, pr.method) {
-                        let args = self.args(&m.args, env)?;
-                        if args.len() != pa.len() {
-                            return self.err(sp, format!("--prim `{}`: number of arguments", pr.spec));
+                    if pr.args.is_some() && pr.method {
+                        let want = self.prim_arg_tys(&pr, sp)?;
+                        let what = format!("`{rust}::{name}`");
+                        if pr.self_mut || pr.panics {
+                            if !pr.self_mut {
+                                return self.unsupported(sp, "--prim of a `&self` method that can panic:");
+                            }
+                            let ret = self.prim_ty(&pr.ret.clone(), sp)?;
+                            note!(self, prims, format!("`{}` is taken as `{}`", pr.spec, pr.lean));
+                            return self.mut_call(m, recv, env, &pr.lean.clone(), &want, &ret, pr.panics, &what);
                         }
+                        let args = self.args_expected(&m.args, &want, env, &what, sp)?;
                         let mut all = vec![r];
-                        all.extend(args.into_iter().map(|(l, _)| l));
+                        all.extend(args);
                         return self.apply_prim(&pr, all, sp);
                     }
                 }
